@@ -96,8 +96,9 @@ Definition bf_empty := mkbf [] [] [] [].
 Definition bf_add (b : built_fmt) (p : piece) (pl : str) : built_fmt :=
   mkbf (bf_pieces b ++ [p]) (bf_plain b ++ pl) (bf_wrapped b) (bf_errs b).
 
+(* format == "" && len(args) == 0 *)
 Definition is_fmt_empty (f : list fpiece) : bool :=
-  match f with [] => true | _ => false end.
+  forallb (fun p => match p with FLit [] => true | _ => false end) f.
 
 Section Build.
 Variable env : benv.
